@@ -429,3 +429,5 @@ func blockDominatedByEdge(fn *ssa.Function, b *ssa.BasicBlock, g Guard) bool {
 	}
 	return !reachable(fn, fn.Blocks[0], surviveEdges([]Guard{g}))[b]
 }
+
+func constStringVal(c *types.Const) string { return constant.StringVal(c.Val()) }
